@@ -338,6 +338,13 @@ fn process_msg_blocks(data: &[u8], h: &mut [u32; DIGEST_BUF_LEN]) {
 const H: [u32; 5] = [0x67452301, 0xefcdab89, 0x98badcfe, 0x10325476, 0xc3d2e1f0];
 
 impl Context {
+    /// verification hook: preset the count of bytes processed so far (must be used on a
+    /// context whose buffer is empty, with a multiple of the block size)
+    #[cfg(cryptoxide_verif)]
+    pub fn verif_set_processed_bytes(&mut self, n: u64) {
+        self.processed_bytes = n;
+    }
+
     /// Construct a new `Ripemd160` object
     pub const fn new() -> Self {
         Self {
